@@ -278,9 +278,9 @@ Proof.
     destruct (max_buffered <? f_len f).
     { destruct Hinv as [F N C W P S]. unfold pipeline in *. unfold init_fail.
       constructor; unfold pipeline; st_simpl_goal; assumption. }
-    set (s2 := match typed_handler cfg (f_typ f) with Some _ => _ | None => _ end) in *.
+    set (s2 := match first_handler cfg (f_typ f) with Some _ => _ | None => _ end) in *.
     assert (Hs2 : same_out s s2 /\ callers s2 = callers s).
-    { subst s2. destruct (typed_handler cfg (f_typ f)) as [k|]; [|split; [same_out_tac|reflexivity]].
+    { subst s2. destruct (first_handler cfg (f_typ f)) as [k|]; [|split; [same_out_tac|reflexivity]].
       destruct k; try (split; [same_out_tac|reflexivity]).
       split.
       - eapply same_out_trans; [|apply ack_enqueue_same_out]. same_out_tac.
